@@ -19,6 +19,8 @@ WATCH_FILES = ("ak/conn_http.py", "ak/mcaller_http.py", "ak/mcaller.py")
 
 REAL_VS_STUB = {'real': ['ak.conn_http', 'ak.mcaller_http', 'ak.mcaller (instrumented, every bytecode instruction a pre-emption point)', 'json, urllib.parse, urllib.request.Request, base64, http.client exceptions (atomic steps)'], 'stub': ['the network: urllib.request.OpenerDirector.open -> in-process transport with latency and fault injection', 'threading.Lock/RLock as seen by ak.conn_http -> simulator locks', 'thread scheduling -> seeded baton scheduler', 'random in ak.conn_http -> PRNG derived from the run seed', 'ssl.SSLContext.load_default_certs -> no-op', 'process-global state -> one fresh forked process per run']}
 
+ASSUMPTIONS = ["pre-emption is possible before every bytecode instruction of ak.conn_http / ak.mcaller_http / ak.mcaller and nowhere inside stdlib calls (a superset of CPython's switch points for the repository code, atomic for stdlib)", 'the sequence number of an id is its last dash-separated field', 'a request counts when it reaches urllib.request.OpenerDirector.open', 'sampling: a clean batch is evidence over the explored schedules, not a proof']
+
 RULE = ("each run = one seeded world (1-2 underlying connections, 2-6 wrappers incl. auth/prefix/"
         "method-caller layers, 2-4 threads x 1-4 requests, post-send transport faults) executed under one "
         "seeded schedule (policy drawn per run: uniform p, targeted, quantum, PCT) with a pre-emption point "
